@@ -9,7 +9,8 @@ def lifeCfg : Cfg :=
                rbdNum := DSGen.life_theta_REBUILD_THRESHOLD_num, rbdDen := DSGen.life_theta_REBUILD_THRESHOLD_den,
                strideBits := DSGen.life_theta_STRIDE_HASH_BITS, minLgK := DSGen.life_theta_MIN_LG_K },
     thetaMaxLgK := DSGen.life_theta_MAX_LG_K,
-    kll := { defaultM := DSGen.life_kll_DEFAULT_M, minK := DSGen.life_kll_MIN_K, maxK := DSGen.life_kll_MAX_K },
+    kll := { defaultM := DSGen.life_kll_DEFAULT_M, minK := DSGen.life_kll_MIN_K, maxK := DSGen.life_kll_MAX_K,
+             moveAssignResetsSource := DSGen.life_kll_MOVE_ASSIGN_SHAPE == 2 },
     fi := { loadNum := DSGen.life_fi_LOAD_FACTOR_num, loadDen := DSGen.life_fi_LOAD_FACTOR_den,
             driftLimit := DSGen.life_fi_DRIFT_LIMIT, maxSample := DSGen.life_fi_MAX_SAMPLE_SIZE,
             lgMinMap := DSGen.life_fi_LG_MIN_MAP_SIZE,
